@@ -2,7 +2,7 @@
 # tools/confirm_benign.sh <src _seed dir> <name>  : confirm a behaviour-preserving refactoring in a fresh scratch worktree and file it under /verif/benign/<name>
 set -u
 src=$1; name=$2
-wt=$(mktemp -d /tmp/confirm_XXXXXX); rmdir "$wt"
+wt=${CONFIRM_WT:-$(mktemp -d /tmp/confirm_XXXXXX)}; rmdir "$wt" 2>/dev/null
 git -C /repo worktree add -q --detach "$wt" HEAD || exit 2
 res=fail
 ( cd "$wt" && mkdir -p _seed && cp "$src"/demo.py _seed/demo.py
